@@ -599,10 +599,12 @@ class OrderedRingBuffer(Generic[FloatArray]):
 
         # Round towards the closer number and towards the even one in case of
         # equal distance
+        # (compare 2 * remainder with the period: `period / 2` is rounded to whole
+        # microseconds, which is wrong for periods with an odd number of microseconds)
         if remainder != timedelta(0) and (
-            self._sampling_period / 2 == remainder
+            2 * remainder == self._sampling_period
             and num_samples % 2 != 0
-            or self._sampling_period / 2 < remainder
+            or 2 * remainder > self._sampling_period
         ):
             num_samples += 1
 
